@@ -38,7 +38,7 @@ ASSUMPTIONS = [
     "repeat delay/interval 0 and the key-strobe-disable bit are not judged",
 ]
 PROBES = ["debounced_press", "release_event", "repeat_event", "fifo_full", "chatter_suppressed", "strobe_change_mid_debounce",
-          "shared_row_keys", "kil_read_pending", "active_low", "inject", "keyi_raised", "keyi_masked"]
+          "shared_row_keys", "kil_read_pending", "active_low", "inject", "keyi_raised", "keyi_masked", "wide_strobe_store"]
 
 CAP = 8
 
@@ -68,10 +68,11 @@ def generate(batch: str, r: Rng, idx: int, tier: str) -> Dict[str, Any]:
     if batch in ("rs-machine", "py-machine"):
         feat = {"timers": True, "keys": True, "kil_reads": True, "onk": False, "imr_writes": r.chance(1, 2),
                 "isr_writes": r.chance(1, 2), "wait": r.chance(1, 2), "halt": r.chance(1, 3), "off": False, "ir": False,
-                "calls": False, "far_calls": False, "nested": False, "lcd": False}
+                "calls": False, "far_calls": False, "nested": False, "lcd": False, "wide_strobe": True}
         n = r.choice([60, 120, 240] if batch == "rs-machine" else [60, 120])
         scn = machine.gen_machine_scenario(r, batch, feat, boundaries=n, faulty=True)
         scn["kb"]["kb_irq"] = r.chance(2, 3)
+        scn["final_state"] = True
         if batch == "rs-machine":
             scn["timer"] = {"enabled": True, "mti": r.range(1, 6), "sti": r.choice([0, 7, 50])}   # scans happen on MTI
         scn["kind"] = "machine"
@@ -492,6 +493,21 @@ def _check_machine(scn: Dict[str, Any], hist: Dict[str, Any]) -> List[dict]:
         elif not pending:
             viols.append({"cls": "keyi_spurious", "executor": ex, "where": {"why": "no_event_pending"},
                           "msg": f"boundary {k}: KEYI raised with an empty event queue (instruction {tag})", "at": k})
+    # the strobe latch the matrix scans with is the strobe register the firmware wrote (however it was written:
+    # as a byte, or as part of a wider store that starts below KOL)
+    fin = hist.get("final")
+    # (Rust machine only: the Python machine keeps KOL/KOH inside the keyboard handler, not in the memory array)
+    if ex == "rs-machine" and fin and fin.get("kb") and fin.get("imem") and not hist.get("err"):
+        kol, koh = fin["kb"].get("kol"), fin["kb"].get("koh")
+        mkol, mkoh = fin["imem"][0xF0], fin["imem"][0xF1]
+        if any(t[1] == "MVW_AMC_KOL" for t in ins.values()):
+            probes["wide_strobe_store"] = 1
+        if kol is not None and (kol & 0xFF) != mkol:
+            viols.append({"cls": "kil_missing", "executor": ex, "where": {"why": "strobe_latch_stale", "reg": "KOL"},
+                          "msg": f"at the end the matrix scans with KOL={kol:#04x} but the register holds {mkol:#04x}", "at": len(obs) - 1})
+        elif koh is not None and (koh & 0x07) != (mkoh & 0x07):
+            viols.append({"cls": "kil_missing", "executor": ex, "where": {"why": "strobe_latch_stale", "reg": "KOH"},
+                          "msg": f"at the end the matrix scans with KOH={koh:#04x} but the register holds {mkoh:#04x}", "at": len(obs) - 1})
     return viols
 
 
